@@ -657,12 +657,13 @@ type SpecFile struct {
 	Ghosts  []*GhostField
 	Lemmas  []*Lemma
 	RawText []string // lines with axiom/assume/pure/trusted for the scan
+	Excluded map[string]string
 }
 
 var directiveKw = map[string]bool{
 	"func": true, "extern": true, "interface": true, "requires": true, "ensures": true, "assigns": true, "reads": true,
 	"loop": true, "pure": true, "trusted": true, "spec": true, "pred": true, "uninterp": true, "ghost": true,
-	"lemma": true, "axiom": true, "props": true, "nopanic": true,
+	"lemma": true, "axiom": true, "props": true, "nopanic": true, "exclude": true,
 }
 
 func parseSpecFile(path string, pkgName string) (*SpecFile, error) {
@@ -707,6 +708,22 @@ func parseSpecFile(path string, pkgName string) (*SpecFile, error) {
 		p := &parser{toks: d.toks, file: path}
 		kw := p.next().v
 		switch kw {
+		case "exclude":
+			// exclude Type.Method: reason...   (not verified in interface-level sweeps; listed in the evidence)
+			nm := p.next().v
+			for p.isOp(".") {
+				p.p++
+				nm += "." + p.next().v
+			}
+			if sf.Excluded == nil {
+				sf.Excluded = map[string]string{}
+			}
+			reason := d.text
+			if i := strings.Index(reason, ":"); i >= 0 {
+				reason = strings.TrimSpace(reason[i+1:])
+			}
+			sf.Excluded[nm] = reason
+			sf.RawText = append(sf.RawText, fmt.Sprintf("%s:%d exclude %s: %s", path, d.line, nm, reason))
 		case "props":
 			curProps = nil
 			for p.peek().k == "id" {
